@@ -13,6 +13,9 @@
 import DDProofs.DumpTotal
 import DDProofs.DynExample
 import DDProofs.PredNodesReach
+import DDProofs.UsedExample
+import DDProofs.DumpPerm
+import DDProps.Histories
 open Std
 namespace DD
 
@@ -137,5 +140,58 @@ example : (dumpPickle exM (.list [4])).toOption.map (·.vars) = some [("a", 0), 
      | .ok f => decide ((loadPickle f true {}).1 = .ok (.list [4])) &&
          decide ((loadPickle f true {}).2.tbl.vars.toList = [("a", 0), ("b", 1)])
      | .error _ => false) = true := by decide +kernel
+
+/-! ### non-vacuity on a USED manager: `usedM` (four variables declared c, a, d, b; thirteen
+nodes; the user holds `a ∧ b` once and the four-variable node 13 twice, DDProofs.UsedExample) -/
+
+/-- `dump(file, [13, -4]); load(file)` of the used manager into ITSELF (it passes the pre-check),
+with its user references in place: exact counts for the same ledger -/
+example : ∃ f roots' m', dumpPickle usedM (.list [13, -4]) = .ok f ∧ loadPickle f true usedM = (.ok roots', m') ∧
+    Inv m' ∧ OrderOK m'.tbl ∧ RefExact m' usedExt ∧ LoadedAs usedM.tbl (.list [13, -4]) m'.tbl roots' := by
+  obtain ⟨f, roots', m', hd, e, I, O, X, _, _, R⟩ := C12_pickle_roundtrip_levels usedM usedM_good.inv
+    usedM_good.order (.list [13, -4]) (by
+      intro u hu
+      have : u = 13 ∨ u = -4 := by simpa [Roots.values] using hu
+      rcases this with rfl | rfl
+      · exact usedM_mem13
+      · exact mem_neg usedM_mem4)
+    usedM usedM_good.inv usedM_good.order usedM_good.ctx
+    (levelsCompatible_declared _ _ (fun var i hm => TreeMap.mem_toList_iff_getElem?_eq_some.mp hm))
+  exact ⟨f, roots', m', hd, e, I, O, X _ usedM_good.exact, R⟩
+
+/-- the JSON round trip, BOTH values of `load_order`, from the used manager (order c < a < d < b)
+into ANOTHER used manager with another order (`a < b` only, nodes 2, 3, 4, the user holds node
+4): `load_order=True` imposes the source's order on it -/
+example (lo : Bool) : ∃ f roots' m', dumpJson usedM (.dict [("f", 13), ("g", -4)]) = .ok f ∧
+    loadJson f lo (run (exHistory.take 12) St.init).m = (.ok roots', m') ∧
+    JsonLoaded f (run (exHistory.take 12) St.init).ext lo roots' m' ∧
+    LoadedAs usedM.tbl (.dict [("f", 13), ("g", -4)]) m'.tbl roots' := by
+  have hops : OpsGuarded (exHistory.take 12) St.init := by decide
+  have hg := reachable_inv _ hops
+  have hroots : (run (exHistory.take 12) St.init).m.roots = [] := by decide
+  have hsub : ∀ v : String, (run (exHistory.take 12) St.init).m.tbl.vars.contains v = true →
+      usedM.tbl.vars.contains v = true := by
+    intro v hv
+    have hk : (run (exHistory.take 12) St.init).m.tbl.vars.keys = ["a", "b"] := by decide
+    have : v ∈ (run (exHistory.take 12) St.init).m.tbl.vars.keys := by
+      rw [TreeMap.mem_keys, TreeMap.mem_iff_contains]; exact hv
+    rw [hk] at this
+    have hs := usedM_shape.1
+    rw [TreeMap.contains_eq_isSome_getElem?]
+    rcases (by simpa using this : v = "a" ∨ v = "b") with rfl | rfl
+    · have : ("a", 1) ∈ usedM.tbl.vars.toList := by rw [hs]; simp
+      rw [TreeMap.mem_toList_iff_getElem?_eq_some.mp this]; rfl
+    · have : ("b", 3) ∈ usedM.tbl.vars.toList := by rw [hs]; simp
+      rw [TreeMap.mem_toList_iff_getElem?_eq_some.mp this]; rfl
+  have hnone : ∀ r ∈ (run (exHistory.take 12) St.init).m.roots,
+      0 < (run (exHistory.take 12) St.init).ext r.natAbs := by
+    rw [hroots]; intro r hr; cases hr
+  exact C12_json_roundtrip_total usedM usedM_good.inv usedM_good.order _ (by simp) (by simp [Roots.values]) (by
+      intro u hu
+      have : u = 13 ∨ u = -4 := by simpa [Roots.values] using hu
+      rcases this with rfl | rfl
+      · exact usedM_mem13
+      · exact mem_neg usedM_mem4) lo _ _ hg (reachable_predNodes _ hops)
+    (by rw [hroots]; intro r hr; cases hr) (fun _ => ⟨by decide, hnone, hsub⟩)
 
 end DD
